@@ -550,6 +550,8 @@ func TestC30(t *testing.T) {
 	lap("hex_writer")
 	hexReader(r)
 	lap("hex_reader")
+	hexSplit(r)
+	lap("hex_split_delivery")
 	// --- E: chunk framing end-to-end
 	chunkEndToEnd(r)
 	lap("chunk_end_to_end")
